@@ -4,12 +4,4 @@
 #[path = "../../common/util.rs"]
 pub mod util;
 
-#[cfg(kani)]
-mod smoke {
-    #[kani::proof]
-    pub fn smoke() {
-        let x: u8 = kani::any();
-        assert!(x as u16 <= 255);
-        kani::cover!(x == 7);
-    }
-}
+pub mod c07;
